@@ -830,6 +830,10 @@ class Enforcer:
             for rule in rules:
                 if self._undefined_check(rule):
                     return True
+
+        # A NotCheck wraps a single rule so check that as well.
+        if isinstance(check, NotCheck):
+            return self._undefined_check(check.rule)
         return False
 
     def _cycle_check(self, check, seen=None):
@@ -866,6 +870,10 @@ class Enforcer:
                 # different branchs are seperated.
                 if self._cycle_check(rule, seen.copy()):
                     return True
+
+        # A NotCheck wraps a single rule so check that as well.
+        if isinstance(check, NotCheck):
+            return self._cycle_check(check.rule, seen)
         return False
 
     @staticmethod
